@@ -480,7 +480,7 @@ def sut_source():
               "class Desc:", "    def __get__(self, obj, typ=None):", "        if obj is not None and obj.mode == 1:",
               "            raise ValueError('descriptor')", "        return obj is not None and obj.mode == 2", "", "",
               "class Holder:", "    d = Desc()", "", "    def __init__(self, mode):", "        self.mode = mode", "", ""]
-    handler_lines = {}
+    handler_lines = {"__first_function_line__": len(lines) + 1}
     for op, expr in OPS.items():
         lines += [f"def cmp_{op}(a, b):", f"    if {expr}:", "        return 1", "    return 2", "", ""]
         lines += [f"def deep_{op}(a, b):", f"    x = cmp_{op}(a, b)", "    if x == 1:", "        return 1", "    return 2", "", ""]
@@ -490,6 +490,13 @@ def sut_source():
                 lines.append("        r = 3")
                 handler_lines[f"f_{fn}_{op}_{k}"] = len(lines)
                 lines += ["    return r + tail(n)", "", ""]
+            # the comparison raises inside try/finally, the exception is caught further out: the
+            # finally body is reached on the exception path only
+            lines += [f"def f_fin_{op}_{k}(a, b, n):", "    m = 0", "    try:", "        try:", f"            r = cmp_{op}(a, b)",
+                      "        finally:", "            m = n + 1", "            m = m * 2", f"    except {h}:"]
+            lines.append("        r = 3")
+            handler_lines[f"f_fin_{op}_{k}"] = len(lines)
+            lines += ["    return r + tail(n) + 10 * (m - m)", "", ""]
     lines += ["def tail(n):", "    r = 0", "    if n > 1:", "        r += 10", "    else:", "        r += 20",
               "    for i in range(n):", "        if i == 1:", "            r += 100", "    return r", "", "",
               "def sub(a, k):", "    x = a[k]", "    if x:", "        return 1", "    return 2", "", "",
@@ -510,7 +517,7 @@ def gen_scenario(rng, attr_bias=False):
         op = rng.choice(ATTR_OPS) if attr_bias and rng.random() < 0.7 else rng.choice(list(OPS))
         # handler 1 (ValueError only) does not catch the AttributeError of attribute reads
         k = rng.choice([0, 2]) if op in ("attr", "dyn") and rng.random() < 0.85 else rng.randrange(len(HANDLERS))
-        fn = f"f_{rng.choice(['cmp', 'deep'])}_{op}_{k}"
+        fn = f"f_{rng.choice(['cmp', 'deep', 'fin'])}_{op}_{k}"
         a, b = rng.choice(OPERANDS), rng.choice(OPERANDS)
         if op in ATTR_OPS:
             a = rng.choice(ATTR_OPERANDS)
@@ -612,6 +619,37 @@ class Pipeline:
         time.sleep(0.2)
         self.module.GATE.clear()
 
+    def lines_after_first_exception(self, calls):
+        """Ground truth from the uninstrumented module under sys.settrace: the lines of the module
+        that execute after the first exception was raised in the test case (until its end)."""
+        seen: set = set()
+        state = {"raised": False}
+
+        def tracer(frame, event, arg):
+            if frame.f_code.co_filename != "<plain>":
+                return None
+            if event == "exception":
+                state["raised"] = True
+            elif event == "line" and state["raised"]:
+                seen.add(frame.f_lineno)
+            return tracer
+
+        ns = dict(self.plain)
+        old = sys.gettrace()
+        sys.settrace(tracer)
+        try:
+            for c in calls:
+                try:
+                    eval(c, ns)  # noqa: S307
+                except BaseException:  # noqa: BLE001
+                    break
+        finally:
+            sys.settrace(old)
+        return seen
+
+    def registered_lines(self):
+        return {m.line_number for m in self.sp.existing_lines.values() if m.file_name.endswith(self.modname + ".py")}
+
     def plain_path(self, call):
         try:
             return eval(call, dict(self.plain)) % 10  # noqa: S307
@@ -636,6 +674,18 @@ def check_scenario(pl, sc):
     lost = {l: (c, full["preds"].get(l, 0)) for l, c in control["preds"].items() if full["preds"].get(l, 0) < c}
     if lost:
         return ("branches-lost-after-exception", f"predicates (line: executions alone, in the test case) {lost} after {sc['prefix']}")
+    # every registered line that the plain module executes after the first exception of the test case
+    # (finally bodies on the exception path, handlers, the rest of the function, later statements)
+    after = pl.lines_after_first_exception(sc["prefix"] + sc["suffix"])
+    # Not the bodies of the operand classes' operators: the probe evaluates the operator itself, with
+    # tracing off by design, and when it raises there the subject never runs the operator on its own.
+    first = pl.handler_lines["__first_function_line__"]
+    not_recorded = sorted(l for l in after if l >= first and l in pl.registered_lines() and l not in full["lines"])
+    if not_recorded:
+        src = pl.src.splitlines()
+        return ("lines-after-exception-not-recorded",
+                f"{sc['prefix'] + sc['suffix']}: the uninstrumented module executes lines {not_recorded} "
+                f"({[src[l - 1].strip() for l in not_recorded][:4]}) after the first exception, they are not in covered_line_ids")
     # within the statement: the handler and the code after the try block
     for fn, call in zip(sc["prefix_fn"], sc["prefix"]):
         if pl.plain_path(call) == 3:
